@@ -25,6 +25,7 @@ import (
 	"github.com/AdguardTeam/AdGuardDNS/internal/access"
 	"github.com/AdguardTeam/AdGuardDNS/internal/agd"
 	"github.com/AdguardTeam/AdGuardDNS/internal/agdcache"
+	"github.com/AdguardTeam/AdGuardDNS/internal/agdnet"
 	"github.com/AdguardTeam/AdGuardDNS/internal/agdtest"
 	"github.com/AdguardTeam/AdGuardDNS/internal/dnsserver"
 	"github.com/AdguardTeam/AdGuardDNS/internal/filter"
@@ -80,28 +81,39 @@ type c05Client struct {
 }
 
 type c05Event struct {
-	Ev      string            `json:"ev"`
-	ID      int               `json:"id"`
-	Geo     map[string]string `json:"geo"`
-	Client  c05Client         `json:"client"`
-	Opt     string            `json:"opt"`    // absent | valid | zero | malformed
-	OptSub  string            `json:"optsub"` // client-supplied subnet
-	OptAddr string            `json:"optaddr"`
-	OptLen  int               `json:"optlen"`
-	EchoAddr string           `json:"echoaddr"`
-	EchoLen  int              `json:"echolen"`
-	EchoScope int             `json:"echoscope"`
-	OptLoc  string            `json:"optloc"`
-	OptFam  string            `json:"optfam"`
-	Q       string            `json:"q"`
-	Scoped  bool              `json:"scoped"`
-	Fwd     string            `json:"fwd"` // subnet received by the upstream, "none" if not called, "noecs" if no option
-	FwdScope int              `json:"fwdscope"`
-	Rcode   int               `json:"rcode"`
-	ExpRc   int               `json:"exprc"` // rcode the upstream gives this name
-	Written bool              `json:"written"`
-	Content string            `json:"content"` // "q@subnet" the answer was made for, recovered from the answer data
-	Beh     int               `json:"beh"`
+	Ev        string            `json:"ev"`
+	ID        int               `json:"id"`
+	Geo       map[string]string `json:"geo"`
+	Client    c05Client         `json:"client"`
+	Opt       string            `json:"opt"`    // absent | valid | zero | malformed
+	OptSub    string            `json:"optsub"` // client-supplied subnet
+	OptAddr   string            `json:"optaddr"`
+	OptLen    int               `json:"optlen"`
+	EchoAddr  string            `json:"echoaddr"`
+	EchoLen   int               `json:"echolen"`
+	EchoScope int               `json:"echoscope"`
+	OptLoc    string            `json:"optloc"`
+	OptFam    string            `json:"optfam"`
+	Q         string            `json:"q"`
+	Scoped    bool              `json:"scoped"`
+	Fwd       string            `json:"fwd"` // subnet received by the upstream, "none" if not called, "noecs" if no option
+	FwdScope  int               `json:"fwdscope"`
+	Rcode     int               `json:"rcode"`
+	ExpRc     int               `json:"exprc"` // rcode the upstream gives this name
+	Written   bool              `json:"written"`
+	Content   string            `json:"content"` // "q@subnet" the answer was made for, recovered from the answer data
+	Beh       int               `json:"beh"`
+	// socket-level queries only: what the client advertised and what it was sent (C08's clauses on
+	// a reply that went through the whole handler stack)
+	Sock     bool `json:"sock"`
+	QOpt     bool `json:"qopt"`
+	QSize    int  `json:"qsize"`
+	Wire     int  `json:"wire"`
+	TC       bool `json:"tc"`
+	An       int  `json:"an"`
+	ROpt     bool `json:"ropt"`
+	ROptSize int  `json:"roptsize"`
+	ROptVer  int  `json:"roptver"`
 }
 
 type c05RW struct {
@@ -117,10 +129,13 @@ func (w *c05RW) WriteMsg(_ context.Context, _, resp *dns.Msg) error {
 }
 
 type c05World struct {
-	h       dnsserver.Handler
-	lastFwd string
-	lastSc  int
-	called  bool
+	h dnsserver.Handler
+	// a real plain-DNS server in front of the handler: what a client gets has also gone
+	// through the server's response normalisation
+	sockAddr string
+	lastFwd  string
+	lastSc   int
+	called   bool
 	// answers are TXT records "q@subnet": recoverable from the response
 }
 
@@ -149,7 +164,7 @@ func c05NewWorld(t *testing.T, ns string) *c05World {
 		w.called = true
 		w.lastFwd, w.lastSc = "noecs", 0
 		name := strings.ToLower(req.Question[0].Name)
-		scoped := strings.HasPrefix(name, "s.")
+		scoped := strings.HasPrefix(name, "s.") || strings.HasSuffix(name, c05AndroidSuffix)
 		resp := new(dns.Msg).SetReply(req)
 		resp.RecursionAvailable = true
 		made := name
@@ -184,6 +199,13 @@ func c05NewWorld(t *testing.T, ns string) *c05World {
 		}
 		txt := &dns.TXT{Hdr: dns.RR_Header{Name: req.Question[0].Name, Rrtype: dns.TypeTXT,
 			Class: dns.ClassINET, Ttl: 3600}, Txt: []string{made}}
+		if strings.Contains(name, "big.") {
+			// an answer of about 2.4 KB
+			for i := 0; i < 60; i++ {
+				resp.Answer = append(resp.Answer, &dns.TXT{Hdr: dns.RR_Header{Name: req.Question[0].Name, Rrtype: dns.TypeTXT,
+					Class: dns.ClassINET, Ttl: 3600}, Txt: []string{fmt.Sprintf("filler-%02d-%s", i, strings.Repeat("x", 16))}})
+			}
+		}
 		if strings.Contains(name, ".nx") {
 			// a negative answer (scoped like any other answer of an "s." name): what it was made
 			// for travels in the authority section next to the SOA
@@ -224,36 +246,49 @@ func c05NewWorld(t *testing.T, ns string) *c05World {
 	fltGrp := &agd.FilteringGroup{FilterConfig: &filter.ConfigGroup{Parental: &filter.ConfigParental{},
 		RuleList: &filter.ConfigRuleList{Enabled: true}, SafeBrowsing: &filter.ConfigSafeBrowsing{}}, ID: fg}
 	handlers, err := NewHandlers(context.Background(), &HandlersConfig{
-		BaseLogger:       slogutil.NewDiscardLogger(),
-		Cloner:           agdtest.NewCloner(),
-		Cache:            &CacheConfig{Type: CacheTypeECS, NoECSCount: 10000, ECSCount: 10000, MinTTL: 10 * time.Second},
-		HumanIDParser:    agd.NewHumanIDParser(),
-		Messages:         agdtest.NewConstructor(t),
-		StructuredErrors: agdtest.NewSDEConfig(true),
-		AccessManager:    global,
-		BillStat:         &agdtest.BillStatRecorder{OnRecord: func(context.Context, agd.DeviceID, geoip.Country, geoip.ASN, time.Time, agd.Protocol) {}},
-		CacheManager:     agdcache.EmptyManager{},
-		DNSCheck:         &agdtest.DNSCheck{OnCheck: func(context.Context, *dns.Msg, *agd.RequestInfo) (*dns.Msg, error) { return nil, nil }},
-		DNSDB:            &agdtest.DNSDB{OnRecord: func(context.Context, *dns.Msg, *agd.RequestInfo) {}},
-		ErrColl:          &agdtest.ErrorCollector{OnCollect: func(context.Context, error) {}},
-		FilterStorage:    fltStrg,
-		GeoIP:            g,
-		Handler:          upstream,
-		HashMatcher:      &agdtest.HashMatcher{OnMatchByPrefix: func(context.Context, string) ([]string, bool, error) { return nil, false, nil }},
-		ProfileDB:        profDB,
+		BaseLogger:           slogutil.NewDiscardLogger(),
+		Cloner:               agdtest.NewCloner(),
+		Cache:                &CacheConfig{Type: CacheTypeECS, NoECSCount: 10000, ECSCount: 10000, MinTTL: 10 * time.Second},
+		HumanIDParser:        agd.NewHumanIDParser(),
+		Messages:             agdtest.NewConstructor(t),
+		StructuredErrors:     agdtest.NewSDEConfig(true),
+		AccessManager:        global,
+		BillStat:             &agdtest.BillStatRecorder{OnRecord: func(context.Context, agd.DeviceID, geoip.Country, geoip.ASN, time.Time, agd.Protocol) {}},
+		CacheManager:         agdcache.EmptyManager{},
+		DNSCheck:             &agdtest.DNSCheck{OnCheck: func(context.Context, *dns.Msg, *agd.RequestInfo) (*dns.Msg, error) { return nil, nil }},
+		DNSDB:                &agdtest.DNSDB{OnRecord: func(context.Context, *dns.Msg, *agd.RequestInfo) {}},
+		ErrColl:              &agdtest.ErrorCollector{OnCollect: func(context.Context, error) {}},
+		FilterStorage:        fltStrg,
+		GeoIP:                g,
+		Handler:              upstream,
+		HashMatcher:          &agdtest.HashMatcher{OnMatchByPrefix: func(context.Context, string) ([]string, bool, error) { return nil, false, nil }},
+		ProfileDB:            profDB,
 		PrometheusRegisterer: agdtest.NewTestPrometheusRegisterer(),
-		QueryLog:         &agdtest.QueryLog{OnWrite: func(context.Context, *querylog.Entry) error { return nil }},
-		RateLimit:        rl,
-		RuleStat:         &agdtest.RuleStat{OnCollect: func(context.Context, filter.ID, filter.RuleText) {}},
-		MetricsNamespace: ns,
-		FilteringGroups:  map[agd.FilteringGroupID]*agd.FilteringGroup{fg: fltGrp},
-		ServerGroups:     []*agd.ServerGroup{grp},
-		EDEEnabled:       true,
+		QueryLog:             &agdtest.QueryLog{OnWrite: func(context.Context, *querylog.Entry) error { return nil }},
+		RateLimit:            rl,
+		RuleStat:             &agdtest.RuleStat{OnCollect: func(context.Context, filter.ID, filter.RuleText) {}},
+		MetricsNamespace:     ns,
+		FilteringGroups:      map[agd.FilteringGroupID]*agd.FilteringGroup{fg: fltGrp},
+		ServerGroups:         []*agd.ServerGroup{grp},
+		EDEEnabled:           true,
 	})
 	if err != nil {
 		t.Fatalf("NewHandlers: %v", err)
 	}
 	w.h = handlers[HandlerKey{Server: srv, ServerGroup: grp}]
+	var ds *dnsserver.ServerDNS
+	for i := 0; i < 8; i++ {
+		ds = dnsserver.NewServerDNS(dnsserver.ConfigDNS{ConfigBase: dnsserver.ConfigBase{Name: "c05srv", Addr: "127.0.0.1:0",
+			Handler: w.h, Network: dnsserver.NetworkUDP}, MaxUDPRespSize: dns.MaxMsgSize})
+		if err = ds.Start(context.Background()); err == nil || !strings.Contains(err.Error(), "in use") {
+			break
+		}
+	}
+	if err != nil {
+		t.Fatalf("starting the plain-DNS server: %v", err)
+	}
+	t.Cleanup(func() { _ = ds.Shutdown(context.Background()) })
+	w.sockAddr = ds.LocalUDPAddr().String()
 	return w
 }
 
@@ -263,6 +298,10 @@ type c05Query struct {
 	sub    netip.Prefix // client-supplied
 	bad    int          // kind of malformation
 	name   string
+	// sock: sent over a loop-back socket to the real server (the client is then 127.0.0.1), with
+	// one more EDNS option of the kind the server itself answers next to the client-subnet option
+	sock  bool
+	extra string
 }
 
 func (w *c05World) ask(t *testing.T, q c05Query, id int, beh int) c05Event {
@@ -272,7 +311,7 @@ func (w *c05World) ask(t *testing.T, q c05Query, id int, beh int) c05Event {
 	req.Question = []dns.Question{{Name: q.name, Qtype: dns.TypeTXT, Qclass: dns.ClassINET}}
 	ev := c05Event{Ev: "Query", ID: id, Beh: beh, Opt: q.opt, OptSub: "none", OptLoc: "unknown", OptFam: "none",
 		Client: c05Client{Addr: q.client.String(), Fam: c05Fam(q.client), Loc: c05Loc(q.client)},
-		Q: strings.ToLower(q.name), Scoped: strings.HasPrefix(strings.ToLower(q.name), "s."),
+		Q:      c05Norm(q.name), Scoped: strings.HasPrefix(c05Norm(q.name), "s.") || strings.HasSuffix(c05Norm(q.name), c05AndroidSuffix),
 		ExpRc: c05ExpRc(strings.ToLower(q.name)), Fwd: "none", Content: "none",
 		EchoAddr: "none", OptAddr: "none", Geo: map[string]string{}}
 	if q.opt == "absent" && id%3 == 0 {
@@ -315,6 +354,47 @@ func (w *c05World) ask(t *testing.T, q c05Query, id int, beh int) c05Event {
 		ev.OptLoc = c05Loc(q.sub.Addr())
 		ev.OptFam = c05Fam(q.sub.Addr())
 	}
+	if q.sock {
+		ev.Client = c05Client{Addr: "127.0.0.1", Fam: "v4", Loc: c05Loc(netip.MustParseAddr("127.0.0.1"))}
+		if o := req.IsEdns0(); o != nil {
+			switch q.extra {
+			case "nsid":
+				o.Option = append(o.Option, &dns.EDNS0_NSID{Code: dns.EDNS0NSID})
+			case "expire":
+				o.Option = append(o.Option, &dns.EDNS0_EXPIRE{Code: dns.EDNS0EXPIRE, Empty: true})
+			case "cookie":
+				o.Option = append(o.Option, &dns.EDNS0_COOKIE{Code: dns.EDNS0COOKIE, Cookie: "0102030405060708"})
+			case "keepalive":
+				o.Option = append(o.Option, &dns.EDNS0_TCP_KEEPALIVE{Code: dns.EDNS0TCPKEEPALIVE})
+			}
+		}
+		if o := req.IsEdns0(); o != nil {
+			o.SetUDPSize([]uint16{512, 1232, 4096, 1232}[id%4])
+			ev.QOpt, ev.QSize = true, int(o.UDPSize())
+		}
+		ev.Sock = true
+		w.called = false
+		cl := &dns.Client{Net: "udp", Timeout: 3 * time.Second, UDPSize: 8192}
+		resp, _, xerr := cl.Exchange(req, w.sockAddr)
+		if resp != nil {
+			ev.Wire, ev.TC, ev.An = resp.Len(), resp.Truncated, len(resp.Answer)
+			if ro := resp.IsEdns0(); ro != nil {
+				ev.ROpt, ev.ROptSize, ev.ROptVer = true, int(ro.UDPSize()), int(ro.Version())
+			}
+		}
+		if w.called {
+			ev.Fwd, ev.FwdScope = w.lastFwd, w.lastSc
+		}
+		c05Observe(&ev, req, resp)
+		if resp != nil && resp.Truncated {
+			// a truncated reply carries no answer at all (the size clauses are C08's): nothing to attribute
+			ev.ExpRc = 99
+		}
+		if xerr != nil {
+			ev.Content = "socket-error"
+		}
+		return ev
+	}
 	port := 4000 + id%1000
 	rw := &c05RW{local: &net.UDPAddr{IP: net.IPv4(94, 149, 14, 14), Port: 53},
 		remote: net.UDPAddrFromAddrPort(netip.AddrPortFrom(q.client, uint16(port)))}
@@ -328,6 +408,28 @@ func (w *c05World) ask(t *testing.T, q c05Query, id int, beh int) c05Event {
 	if w.called {
 		ev.Fwd, ev.FwdScope = w.lastFwd, w.lastSc
 	}
+	c05Observe(&ev, req, rw.msg)
+	return ev
+}
+
+const c05AndroidSuffix = "-ds.metric.gstatic.com."
+
+// c05Norm is the name the resolver works with: lower case, and the random
+// Android DoT / DoH probe names folded into one name each (so that they share
+// a cache entry); their answers depend on the subnet like those of "s." names.
+func c05Norm(name string) string {
+	name = strings.ToLower(name)
+	if r := agdnet.AndroidMetricDomainReplacement(name); r != "" {
+		return r
+	}
+	return name
+}
+
+// c05Observe records what the client was sent.
+func c05Observe(evp *c05Event, req, msg *dns.Msg) {
+	ev := *evp
+	defer func() { *evp = ev }()
+	rw := struct{ msg *dns.Msg }{msg}
 	if rw.msg != nil {
 		ev.Written = true
 		ev.Rcode = rw.msg.Rcode
@@ -351,7 +453,6 @@ func (w *c05World) ask(t *testing.T, q c05Query, id int, beh int) c05Event {
 			ev.Content = "foreign-id"
 		}
 	}
-	return ev
 }
 
 func TestVerifC05(t *testing.T) {
@@ -379,7 +480,21 @@ func TestVerifC05(t *testing.T) {
 		w := c05NewWorld(t, fmt.Sprintf("c05_%d", beh))
 		out.Emit(c05Event{Ev: "Reset", Beh: beh, Geo: geo})
 		names := []string{fmt.Sprintf("s.n%d.example.", rng.Intn(2)), fmt.Sprintf("u.n%d.example.", rng.Intn(2)), "s.shared.example.",
-			"s.nx.example.", "u.nx.example.", "s.be.example."}
+			"s.nx.example.", "u.nx.example.", "s.be.example.", "s.big.example.", "u.big.example.",
+			fmt.Sprintf("%08x-dnsotls%s", rng.Uint32(), c05AndroidSuffix), fmt.Sprintf("%06x-dnsohttps%s", rng.Intn(1<<24), c05AndroidSuffix)}
+		// a few fixed socket-level queries in every history: large answers for clients that opted out of
+		// ECS, that sent a subnet, and that sent no option, with small advertised sizes
+		if beh%4 == 0 {
+			for _, q := range []c05Query{
+				{client: clients[0], name: "u.big.example.", opt: "zero", sub: netip.MustParsePrefix("0.0.0.0/0"), sock: true, extra: "none"},
+				{client: clients[0], name: "s.big.example.", opt: "zero", sub: netip.MustParsePrefix("::/0"), sock: true, extra: "nsid"},
+				{client: clients[0], name: "s.big.example.", opt: "valid", sub: subs[0], sock: true, extra: "none"},
+				{client: clients[0], name: "u.big.example.", opt: "absent", sock: true, extra: "none"},
+			} {
+				id++
+				out.Emit(w.ask(t, q, id, beh))
+			}
+		}
 		steps := 8 + rng.Intn(24)
 		for i := 0; i < steps; i++ {
 			q := c05Query{client: clients[rng.Intn(len(clients))], name: names[rng.Intn(len(names))]}
@@ -400,6 +515,10 @@ func TestVerifC05(t *testing.T) {
 				}
 			default:
 				q.opt, q.sub, q.bad = "malformed", subs[rng.Intn(len(subs))], rng.Intn(4)
+			}
+			// (a malformed option cannot be put on the wire faithfully by the client library's packer)
+			if rng.Intn(4) == 0 && q.opt != "malformed" {
+				q.sock, q.extra = true, []string{"none", "nsid", "expire", "cookie", "keepalive"}[rng.Intn(5)]
 			}
 			id++
 			out.Emit(w.ask(t, q, id, beh))
